@@ -6,6 +6,7 @@ import Qsx.Model.Round
 import Qsx.Model.SolFile
 import Qsx.Model.Cap
 import Qsx.Model.LpBounds
+import Qsx.Model.Store
 import Qsx.Model.Multi
 import Qsx.Model.Driver
 import Qsx.Model.Num
@@ -465,6 +466,61 @@ def answer (cx : Ctx) (toks : List String) : Ctx × List String :=
           s!"c {j}" ++ rs.foldl (fun (acc : String) (r : Qsx.MpsBounds.Rec) => acc ++ (match r with
             | .fx v => s!" FX {fmtRat cx v}" | .fr => " FR" | .mi => " MI" | .lo v => s!" LO {fmtRat cx v}"
             | .pl => " PL" | .up v => s!" UP {fmtRat cx v}")) ""
+      pure out).run' rest
+    (cx, r.getD ["bad-op"])
+  | "store" :: rest =>
+    -- C06/C17: store <matrows matcols matsize matfree matcolsize nstruct> <matbeg> <matcnt> <matind(used)> <structmap> <rowmap> n {op}*n
+    --   ops: ar c k {j a}*k (c = coefficient of the logical) | ac k {i a}*k | cc row col v | dr k i.. | dc k j..
+    let r : Option (List String) := (do
+      let h ← pMany 6 pInt
+      let pArr : P (Array Int) := do let n ← pNat; pMany n pInt
+      let beg ← pArr; let cnt ← pArr; let ind ← pArr; let sm ← pArr; let rm ← pArr
+      let matsize := (h[2]!).toNat
+      let A0 : Qsx.Store.M := {
+        matrows := (h[0]!).toNat, matcols := (h[1]!).toNat, matsize := matsize, matfree := h[3]!, matcolsize := (h[4]!).toNat,
+        nstruct := (h[5]!).toNat,
+        matbeg := Qsx.Store.growTo (beg.map Int.toNat) (h[4]!).toNat 0, matcnt := Qsx.Store.growTo (cnt.map Int.toNat) (h[4]!).toNat 0,
+        matind := Qsx.Store.growTo ind matsize (-1), matval := Array.replicate matsize 0,
+        structmap := sm.map Int.toNat, rowmap := rm.map Int.toNat }
+      let n ← pNat
+      let pEntN : P (List Nat × List Rat) := do
+        let k ← pNat
+        let es : Array (Nat × Rat) ← pMany k (do let i ← pNat; let v ← pRat cx; pure (i, v))
+        pure (es.toList.map (fun (e : Nat × Rat) => e.1), es.toList.map (fun (e : Nat × Rat) => e.2))
+      let fmtA (key : String) (a : List String) : String := key ++ " " ++ toString a.length ++ a.foldl (fun s t => s ++ " " ++ t) ""
+      let dump (A : Qsx.Store.M) (w : List Nat) : List String :=
+        let used := Qsx.Store.used A
+        [s!"raw matrows={A.matrows} matcols={A.matcols} matsize={A.matsize} matfree={A.matfree} matcolsize={A.matcolsize} nstruct={A.nstruct}",
+         fmtA "structmap" ((List.range A.nstruct).map fun i => toString (Qsx.Store.getn A.structmap i)),
+         fmtA "rowmap" ((List.range A.matrows).map fun i => toString (Qsx.Store.getn A.rowmap i)),
+         fmtA "matbeg" ((List.range A.matcols).map fun i => toString (Qsx.Store.getn A.matbeg i)),
+         fmtA "matcnt" ((List.range A.matcols).map fun i => toString (Qsx.Store.getn A.matcnt i)),
+         fmtA "matind" ((List.range used).map fun i => toString (Qsx.Store.geti A.matind i)),
+         s!"writes {w.length} {w.foldl max 0} {if w.all (· < A.matsize) then 1 else 0}"]
+      let mut A := A0
+      let mut out : List String := []
+      for _ in [0:n] do
+        let k ← pTok
+        if k == "ar" then
+          let c ← pRat cx
+          let (ind, val) ← pEntN
+          let (A', w, acct) := Qsx.Store.addRow A ind val c
+          A := A'; out := out ++ dump A w ++ [s!"acct {acct}"]
+        else if k == "ac" then
+          let (ind, val) ← pEntN
+          let (A', w) := Qsx.Store.addCol A ind val
+          A := A'; out := out ++ dump A w
+        else if k == "cc" then
+          let r ← pNat; let c ← pNat; let v ← pRat cx
+          let (A', w) := Qsx.Store.chgCoef A r c v
+          A := A'; out := out ++ dump A w
+        else if k == "dr" then
+          let m ← pNat; let l ← pMany m pNat
+          A := Qsx.Store.delRows A l.toList; out := out ++ dump A []
+        else if k == "dc" then
+          let m ← pNat; let l ← pMany m pNat
+          A := Qsx.Store.delCols A l.toList; out := out ++ dump A []
+        else failure
       pure out).run' rest
     (cx, r.getD ["bad-op"])
   | "tointernal" :: rest =>
